@@ -86,6 +86,7 @@ pub uninterp spec fn proved_entry(h: Seq<u8>) -> bool;          // the map holds
 pub uninterp spec fn indexable(b: Block) -> bool;               // gate of Storage::filter_block
 pub uninterp spec fn block_number_ok(n: u64) -> bool;           // gate of Storage::update_block_number (C09)
 
+pub uninterp spec fn mb_locked() -> bool;      // C17: this handler took the write lock of Peers::matched_blocks (see peers_gate.rs)
 pub struct RwLockMB { pub x: u8 }
 pub struct MBGuardRes { pub x: u8 }
 pub struct MBGuard { pub x: u8 }                       // RwLockWriteGuard<HashMap<H256, (bool, Option<packed::Block>)>>
@@ -95,7 +96,7 @@ impl RwLockMB {
 }
 impl MBGuardRes {
     #[verifier::external_body]
-    pub fn expect(self, msg: &str) -> (r: MBGuard) { unimplemented!() }   // lock poisoning not modelled (R13)
+    pub fn expect(self, msg: &str) -> (r: MBGuard) ensures mb_locked() { unimplemented!() }   // lock poisoning not modelled (R13)
 }
 // ASSUMED design invariant (not verified): the in-memory matched-block map mirrors the EARLIEST stored record: it is non-empty
 // only while that record exists, its keys are the record's (distinct) hashes
@@ -150,14 +151,14 @@ impl Storage {
         ensures r == self.s_earliest(), mirror_nonempty() ==> r.is_some(),
                 r.is_some() ==> r.unwrap().1 >= 1 && r.unwrap().0 as int + r.unwrap().1 as int <= u64::MAX && r.unwrap().2@ == cur_record() { unimplemented!() }
     #[verifier::external_body]
-    pub fn remove_matched_blocks(&self, start_number: u64) { unimplemented!() }
+    pub fn remove_matched_blocks(&self, start_number: u64) requires mb_locked() /*props:C17*/ { unimplemented!() }
     // GATE (C02): only a block whose header is proved and whose body is committed by that header is indexed
     #[verifier::external_body]
-    pub fn filter_block(&self, block: Block) requires indexable(block) { unimplemented!() }
+    pub fn filter_block(&self, block: Block) requires indexable(block), mb_locked() /*props:C17*/ { unimplemented!() }
     // GATE (C09): the scripts' recorded block number is raised to the end of a matched-blocks record only when that record's
     // blocks were all downloaded (and indexed)
     #[verifier::external_body]
-    pub fn update_block_number(&self, block_number: u64) requires block_number_ok(block_number) { unimplemented!() }
+    pub fn update_block_number(&self, block_number: u64) requires block_number_ok(block_number), mb_locked() /*props:C17*/ { unimplemented!() }
     #[verifier::external_body]
     pub fn get_tip_header(&self) -> (r: Header) { unimplemented!() }
 }
